@@ -319,6 +319,23 @@ impl Dictionary {
         self.unk_handler().verif_entries()
     }
 
+    /// Verification hook: `Lexicon::parse_csv` on raw bytes, as
+    /// `(surface, left_id, right_id, word_cost, feature)` rows.
+    pub fn verif_parse_lex_csv(bytes: &[u8]) -> Result<Vec<(String, u16, u16, i16, String)>> {
+        Ok(Lexicon::parse_csv(bytes, "lex.csv")?
+            .into_iter()
+            .map(|e| {
+                (
+                    e.surface,
+                    e.param.left_id,
+                    e.param.right_id,
+                    e.param.word_cost,
+                    e.feature.to_string(),
+                )
+            })
+            .collect())
+    }
+
     /// Verification hook: stored left and right tables of the connection-id mapper.
     pub fn verif_mapper(&self) -> Option<(Vec<u16>, Vec<u16>)> {
         self.mapper().map(|m| m.verif_tables())
